@@ -15,7 +15,8 @@ from hypothesis import strategies as st
 from vlib import est, gen
 
 DISPLAY = ["plot_norm", "plot", "plot_other", "str"]
-EDIT = ["refill", "aug_mul", "aug_sub", "refill_list"]
+EDIT = ["refill", "aug_mul", "aug_sub", "refill_list", "edit_call", "reorder"]
+ORDER_ROWS = ("pburg", "pyule", "pcovar", "pmodcovar", "pminvar")
 ACTIONS = DISPLAY + EDIT
 KINDS = ("noise", "tones", "ar")
 
@@ -34,7 +35,7 @@ def life_case(rows, max_n=48):
         return {"row": row, "x1": x1, "x2": x2, "p": p, "nfft": nfft, "sampling": draw(st.sampled_from([1.0, 2.0, 1000.0])),
                 "scale": draw(st.booleans()), "action": draw(st.sampled_from(ACTIONS)),
                 "sides": draw(st.sampled_from(["default", "default", "twosided", "centerdc"])),
-                "g": draw(st.sampled_from([2.0, -0.5, 3.0, 10.0]))}
+                "g": draw(st.sampled_from([2.0, -0.5, 3.0, 10.0])), "order2": draw(st.integers(2, 7))}
     return _case()
 
 
@@ -105,7 +106,24 @@ def body(ctx, case):
             _same(ctx, row, _snapshot(row, p), first, "%s after %s" % (tag, {"plot_norm": "p.plot(norm=True)", "plot": "p.plot()",
                   "plot_other": "p.plot(norm=True, sides=<another layout>)", "str": "str(p)"}[action]), sig, exact=True)
             return
-        if action == "refill":
+        P2 = P
+        if action == "reorder" and row not in ORDER_ROWS:
+            action = "aug_mul"
+        if action == "reorder":
+            # an order scan on a live object: p.ar_order = q; p()
+            q2 = case.get("order2", 3)
+            if q2 == P["order"]:
+                q2 = q2 + 1
+            p.ar_order = q2
+            p()
+            P2 = dict(P, order=q2)
+            now, how = x1, "p.ar_order = %d; p()" % q2
+        elif action == "edit_call":
+            d = p.data
+            d[:4] = 0          # the caller edits the samples the object hands out, then asks for a new evaluation
+            p()
+            now, how = np.concatenate((np.zeros(4, dtype=x1.dtype), x1[4:])), "p.data[:4] = 0; p()"
+        elif action == "refill":
             buf[:] = x2
             p.data = buf
             now, how = x2, "buf[:] = second record; p.data = buf (the array the object was built from, refilled in place)"
@@ -122,7 +140,7 @@ def body(ctx, case):
         held = np.asarray(p.data)
         ctx.check(held.shape == now.shape and np.array_equal(held, now), "%s after %s: p.data does not hold the new samples" % (tag, how), sig=dict(sig, what="data"))
         got = _snapshot(row, p)
-        q = est.build(row, np.array(now, copy=True), P, **kw)
+        q = est.build(row, np.array(now, copy=True), P2, **kw)
         _ = q.psd
         if p.sides != q.sides and not (np.iscomplexobj(x1) and p.sides == "onesided"):
             q.sides = p.sides
